@@ -131,7 +131,7 @@ def build_pool(cat, strip_citations=False):
             ann = {"topology": rd.get("topology", "circular"), "molecule_type": "DNA"}
             for k, v in (rd.get("annotations") or {}).items():
                 ann[k] = v
-            rec = CircularRecord(Seq(rd["seq"]), id=rd["id"], name=rd.get("name", rd["id"]), description=rd.get("description", "synthetic " + rd["id"]), dbxrefs=list(rd.get("dbxrefs", [])), features=feats, annotations=ann)
+            rec = CircularRecord(Seq(rd["seq"]), id=rd.get("rec_id", rd["id"]), name=rd.get("name", rd["id"]), description=rd.get("description", "synthetic " + rd["id"]), dbxrefs=list(rd.get("dbxrefs", [])), features=feats, annotations=ann)
         refs = rd.get("references")
         if refs is not None and not strip_citations:
             lst = []
@@ -232,6 +232,11 @@ def snapshot(rec):
         "references": refs,  # absent == empty: the one equivalence the statement grants
         "letter_annotations": {str(k): _canon_value(list(v) if not isinstance(v, str) else v) for k, v in rec.letter_annotations.items()},
     }
+
+
+def _citation_view(snap):
+    """The citation qualifiers and the reference list of a snapshot."""
+    return [[v for k, v in f["qualifiers"] if k == "citation"] for f in snap["features"]], snap["references"]
 
 
 def first_difference(a, b, path=""):
@@ -523,7 +528,7 @@ def _run_child(case):
             now = snapshot(rec)
             if now != baseline[rid]:
                 d = first_difference(baseline[rid], now)
-                diffs.append({"rec": rid, "path": d[0], "before": _short(d[1]), "after": _short(d[2])})
+                diffs.append({"rec": rid, "path": d[0], "before": _short(d[1]), "after": _short(d[2]), "citation_data": _citation_view(baseline[rid]) != _citation_view(now)})
                 baseline[rid] = now  # report each corruption once
         if diffs:
             ev["purity"] = diffs
@@ -750,6 +755,8 @@ def execute(case):
                 probes["assemble-with-malformed-citation"] += 1
             if cit:
                 probes["assemble-with-citations"] += 1
+            if sum(1 for rd in cat["pool"] if rd["id"] in recs and rd.get("rec_id")) >= 2:
+                probes["inputs-sharing-an-id-string"] += 1
             if any(rd.get("origin_on_fragment_start") for rd in cat["pool"] if rd["id"] in recs):
                 probes["input-origin-on-fragment-start"] += 1
             if any(len(set(rd.get("references") or [])) < len(rd.get("references") or []) for rd in cat["pool"] if rd["id"] in recs):
@@ -814,7 +821,7 @@ def execute(case):
             on = this_kind if k == "assemble" else k
             failures.append({"property": "C07", "clause": "C07.purity", "op": i, "op_id": op.get("id"), "signature": "on:%s" % on.split(":")[0] if not str(on).startswith("injected") else "on:injected",
                              "expected": d0["before"], "observed": d0["after"], "detail": "record %s changed at %s (%d record(s) changed)" % (d0["rec"], d0["path"], len(ev["purity"]))})
-            if k == "assemble" and isinstance(out, dict) and not out.get("skip") and any("citation" in d["path"] or "references" in d["path"] or "Reference" in d["after"] for d in ev["purity"]):
+            if k == "assemble" and isinstance(out, dict) and not out.get("skip") and any(d.get("citation_data") for d in ev["purity"]):
                 failures.append({"property": "C10", "clause": "C10.inputs", "op": i, "op_id": op.get("id"), "signature": "inputs", "expected": d0["before"], "observed": d0["after"], "detail": "input %s citation data changed at %s" % (d0["rec"], d0["path"])})
         if k == "assemble":
             prev_kind = this_kind
@@ -991,6 +998,11 @@ def gen_scenario(g, kind=None):
         rd = add("B0", "module", seq, seg, mcls)
         rd["seq"], rd["broken_seq"] = rd["broken_seq"], rd["seq"]
         extras.append("w:B0")
+    if g.random() < 0.12 and n >= 2:
+        # distinct records carrying the same id string (products of earlier assemblies made
+        # without id= are all called "assembly"; record ids are labels, not keys)
+        for rd in g.sample([r for r in pool if r["role"] == "module"], 2) + ([pool[0]] if g.random() < 0.3 else []):
+            rd["rec_id"] = "assembly"
     if g.random() < 0.25:  # second wrapper on an existing record
         i = g.randrange(n)
         wrappers.append({"h": "w2:M%d" % i, "cls": mcls, "rec": "M%d" % i})
@@ -1252,7 +1264,7 @@ def catalogue_summary(case):
 
 
 EXPECTED_PROBES = {
-    "C07": ["input-origin-on-fragment-start", "unused-modules-raised-as-error", "assemble-with-duplicate-reference-in-one-record", "assemble-with-malformed-citation", "probe:target_sequence", "edit:citation", "assemble-with-citations", "refinement-after-failure", "refinement-after-injected-fault", "same-instance-twice", "missing-module", "unused-modules-warning", "stale-wrapper-used", "edit:edit_seq", "rewrap"],
+    "C07": ["inputs-sharing-an-id-string", "input-origin-on-fragment-start", "unused-modules-raised-as-error", "assemble-with-duplicate-reference-in-one-record", "assemble-with-malformed-citation", "probe:target_sequence", "edit:citation", "assemble-with-citations", "refinement-after-failure", "refinement-after-injected-fault", "same-instance-twice", "missing-module", "unused-modules-warning", "stale-wrapper-used", "edit:edit_seq", "rewrap"],
     "C10": ["product-carries-citation", "product-with-cited-inputs"],
 }
 
